@@ -16,6 +16,7 @@ package main
 
 import (
 	"bytes"
+	"encoding/binary"
 	"encoding/json"
 	"fmt"
 	"math/big"
@@ -26,6 +27,7 @@ import (
 	"com.tuntun.rangers/node/src/common"
 	"com.tuntun.rangers/node/src/middleware/types"
 	"com.tuntun.rangers/node/src/service"
+	"com.tuntun.rangers/node/src/storage/account"
 	"verif/harness/hx"
 )
 
@@ -37,17 +39,19 @@ var tenTok = tokens(10)
 // ---- world ----
 type world struct {
 	*nodeWorld
-	ids       [][]byte         // id universe, sorted by key bytes; model index = position + 1
-	accts     []common.Address // account universe; model index = position + 1 (0 = the empty byte string); accts[0] = FeeAccount
-	senders   []int            // model indices of the senders
-	contracts []int            // model indices of the accounts that carry code
-	ncOf      map[int]int      // sender index -> index of the address the main-node stub reports for it
-	mnCode    bool             // the main-node contract is deployed
+	ids       [][]byte    // id universe, sorted by key bytes; model index = position + 1
+	accts     [][]byte    // account universe (byte strings); model index = position + 1 (0 = the empty byte string); accts[0] = FeeAccount
+	addrOf    []int       // account index -> index of common.BytesToAddress(bytes) (itself for 20-byte accounts); addrOf[0] = 0
+	addrU     []int       // address universe for balances / escrow: 0 (zero address) and every 20-byte account
+	senders   []int       // model indices of the senders
+	contracts []int       // model indices of the accounts that carry code
+	ncOf      map[int]int // sender index -> index of the address the main-node stub reports for it
+	mnCode    bool        // the main-node contract is deployed
 	h         uint64
 	heights   map[uint64]bool
 	ghost     map[string]int64 // id -> applied + added - refunded, from the receipts
-	burned    *big.Int
 	blocks    int
+	keyBytes  []string
 }
 
 func (w *world) acctIdx(b []byte) int {
@@ -55,9 +59,32 @@ func (w *world) acctIdx(b []byte) int {
 		return 0
 	}
 	for i, a := range w.accts {
-		if bytes.Equal(a.Bytes(), b) {
+		if bytes.Equal(a, b) {
 			return i + 1
 		}
+	}
+	return -1
+}
+
+// acctIdxJunk: acctIdx, and for byte strings that are another slot's value (storage-key aliasing) the tagged numbers
+// of coq/C20/KeyModel.v: the json record of id j, 8 stake bytes, 1 status byte
+func (w *world) acctIdxJunk(b []byte, adb *account.AccountDB) int {
+	if i := w.acctIdx(b); i >= 0 {
+		return i
+	}
+	for k := 0; k <= 1; k++ {
+		db := []common.Address{common.ValidatorDBAddress, common.ProposerDBAddress}[k]
+		for j, id := range w.ids {
+			if d := adb.GetData(db, id); len(d) > 8 && bytes.Equal(d, b) {
+				return 1000000 + j + 1
+			}
+		}
+	}
+	if len(b) == 8 {
+		return 2000000 + int(binary.BigEndian.Uint64(b))
+	}
+	if len(b) == 1 {
+		return 3000000 + int(b[0])
 	}
 	return -1
 }
@@ -69,17 +96,20 @@ func (w *world) addrIdx(a common.Address) int {
 	return w.acctIdx(a.Bytes())
 }
 
-func (w *world) isContract(i int) bool {
-	for _, c := range w.contracts {
-		if c == i {
-			return true
-		}
+func (w *world) address(i int) common.Address {
+	if i == 0 {
+		return common.Address{}
 	}
-	return false
+	return common.BytesToAddress(w.accts[i-1])
+}
+
+func (w *world) addAcct(b []byte) int {
+	w.accts = append(w.accts, b)
+	return len(w.accts)
 }
 
 func newWorld(r *hx.Rng) *world {
-	w := &world{nodeWorld: newNodeWorld(), heights: map[uint64]bool{}, ghost: map[string]int64{}, burned: new(big.Int), ncOf: map[int]int{}}
+	w := &world{nodeWorld: newNodeWorld(), heights: map[uint64]bool{}, ghost: map[string]int64{}, ncOf: map[int]int{}}
 	w.h = 20 + uint64(r.Intn(1000))
 	// ids: four 32-byte ids (first byte != 0x70), two short ones; no id is a prefix of another
 	for i := 0; i < 4; i++ {
@@ -92,25 +122,40 @@ func newWorld(r *hx.Rng) *world {
 	w.ids = append(w.ids, []byte{0x70, 0x01}, []byte{0x70, 0x02})
 	sort.Slice(w.ids, func(i, j int) bool { return bytes.Compare(w.ids[i], w.ids[j]) < 0 })
 	// accounts
-	w.accts = []common.Address{common.FeeAccount}
+	w.addAcct(common.FeeAccount.Bytes())
 	for i := 1; i <= 4; i++ { // senders: indices 2..5
-		w.accts = append(w.accts, addr(i))
-		w.senders = append(w.senders, len(w.accts))
+		w.senders = append(w.senders, w.addAcct(addr(i).Bytes()))
 	}
-	w.accts = append(w.accts, addr(0x11), addr(0x12)) // plain non-senders: 6, 7
-	w.accts = append(w.accts, addr(0x31))             // a contract: 8
-	w.contracts = append(w.contracts, len(w.accts))
+	w.addAcct(addr(0x11).Bytes()) // plain non-senders: 6, 7
+	w.addAcct(addr(0x12).Bytes())
+	w.contracts = append(w.contracts, w.addAcct(addr(0x31).Bytes())) // a contract: 8
 	for i := 1; i <= 4; i++ { // what the main-node stub reports for sender i: ORIGIN + 0x40
-		w.accts = append(w.accts, addr(0x40+i))
-		w.ncOf[w.senders[i-1]] = len(w.accts)
+		n := w.addAcct(addr(0x40 + i).Bytes())
+		w.ncOf[w.senders[i-1]] = n
 		if i <= 2 {
-			w.contracts = append(w.contracts, len(w.accts))
+			w.contracts = append(w.contracts, n)
+		}
+	}
+	// account byte strings that are not 20 bytes long, and the addresses BytesToAddress maps them to
+	odd := [][]byte{{0x0b, 0x0c, 0x0d}, append([]byte{0x00}, addr(1).Bytes()...), append(append([]byte{0xee}, r.Bytes(30)...), 0x07)}
+	for _, o := range odd {
+		w.addAcct(o)
+		if w.acctIdx(common.BytesToAddress(o).Bytes()) < 0 {
+			w.addAcct(common.BytesToAddress(o).Bytes())
+		}
+	}
+	w.addrOf = []int{0}
+	w.addrU = []int{0}
+	for i, a := range w.accts {
+		w.addrOf = append(w.addrOf, w.acctIdx(common.BytesToAddress(a).Bytes()))
+		if len(a) == 20 {
+			w.addrU = append(w.addrU, i+1)
 		}
 	}
 	adb := w.ADB
 	for _, c := range w.contracts {
-		adb.SetNonce(w.accts[c-1], 1)
-		adb.SetCode(w.accts[c-1], []byte{0x00})
+		adb.SetNonce(w.address(c), 1)
+		adb.SetCode(w.address(c), []byte{0x00})
 	}
 	adb.SetBalance(addr(1), tokens(uint64(15000+r.Intn(10000))))
 	adb.SetBalance(addr(2), tokens(uint64(3000+r.Intn(4000))))
@@ -132,7 +177,7 @@ func newWorld(r *hx.Rng) *world {
 	return w
 }
 
-// ---- observation of the implementation at a block boundary ----
+// ---- observation of the implementation ----
 type mrec struct {
 	K, I         int
 	Apply, Stake uint64
@@ -147,9 +192,16 @@ type escEntry struct {
 
 type ostate struct {
 	miners []mrec
-	bals   []*big.Int // per account index 1..n
+	bals   []*big.Int // per entry of addrU
 	esc    []escEntry
 	bad    string
+}
+
+// midobs: what a probe transaction reads inside the running block
+type midobs struct {
+	ostate
+	byAcct []int // GetMinerIdByAccount for the empty account and every account; 0 = nil
+	iter   [2][]int
 }
 
 func (w *world) sortedHeights() []uint64 {
@@ -161,15 +213,25 @@ func (w *world) sortedHeights() []uint64 {
 	return hs
 }
 
-func (w *world) observe() ostate {
+func (w *world) idIdx(id []byte) int {
+	for i, x := range w.ids {
+		if bytes.Equal(x, id) {
+			return i + 1
+		}
+	}
+	return -1
+}
+
+// observeReg: every record GetMinerById finds, every balance (no escrow: GetAllRefund creates account objects)
+func (w *world) observeReg(adb *account.AccountDB) ostate {
 	var o ostate
 	for k := 0; k <= 1; k++ {
 		for i, id := range w.ids {
-			m := service.MinerManagerImpl.GetMinerById(id, byte(k), w.ADB)
+			m := service.MinerManagerImpl.GetMinerById(id, byte(k), adb)
 			if m == nil {
 				continue
 			}
-			ai := w.acctIdx(m.Account)
+			ai := w.acctIdxJunk(m.Account, adb)
 			if ai < 0 {
 				o.bad = "account outside the universe: " + common.ToHex(m.Account)
 			}
@@ -179,9 +241,14 @@ func (w *world) observe() ostate {
 			o.miners = append(o.miners, mrec{k, i + 1, m.ApplyHeight, m.Stake, ai, int(m.Status)})
 		}
 	}
-	for _, a := range w.accts {
-		o.bals = append(o.bals, w.ADB.GetBalance(a))
+	for _, a := range w.addrU {
+		o.bals = append(o.bals, adb.GetBalance(w.address(a)))
 	}
+	return o
+}
+
+func (w *world) observe() ostate {
+	o := w.observeReg(w.ADB)
 	for _, h := range w.sortedHeights() {
 		m := escrowOf(w.ADB, h)
 		for a := range m {
@@ -189,13 +256,31 @@ func (w *world) observe() ostate {
 				o.bad = "escrow beneficiary outside the universe: " + a.GetHexString()
 			}
 		}
-		for i, a := range w.accts {
-			if v, ok := m[a]; ok {
-				o.esc = append(o.esc, escEntry{h, i + 1, v})
+		for _, a := range w.addrU {
+			if v, ok := m[w.address(a)]; ok {
+				o.esc = append(o.esc, escEntry{h, a, v})
 			}
 		}
 	}
 	return o
+}
+
+func (w *world) observeMid(adb *account.AccountDB) midobs {
+	mo := midobs{ostate: w.observeReg(adb)}
+	for ai := 0; ai <= len(w.accts); ai++ {
+		got := service.MinerManagerImpl.GetMinerIdByAccount(w.acctBytes(ai), adb)
+		gi := 0
+		if got != nil {
+			gi = w.idIdx(got)
+		}
+		mo.byAcct = append(mo.byAcct, gi)
+	}
+	for k := 0; k <= 1; k++ {
+		for _, m := range service.VerifC20Iterate(byte(k), adb) {
+			mo.iter[k] = append(mo.iter[k], w.idIdx(m.Id))
+		}
+	}
+	return mo
 }
 
 func (o ostate) total() *big.Int {
@@ -212,18 +297,40 @@ func (o ostate) total() *big.Int {
 	return s
 }
 
-func (o ostate) coq() string {
-	var ms, bs, es []string
-	for _, m := range o.miners {
-		ms = append(ms, fmt.Sprintf("(%d%%N,%d%%N,%d%%N,%d%%N,%d%%N,%d%%N)", m.K, m.I, m.Apply, m.Stake, m.Acct, m.Stat))
+func minersCoq(ms []mrec) string {
+	var out []string
+	for _, m := range ms {
+		out = append(out, fmt.Sprintf("(%d%%N,%d%%N,%d%%N,%d%%N,%d%%N,%d%%N)", m.K, m.I, m.Apply, m.Stake, m.Acct, m.Stat))
 	}
-	for i, b := range o.bals {
-		bs = append(bs, fmt.Sprintf("(%d%%N,%s)", i+1, hx.CoqZ(b.String())))
+	return hx.CoqList(out)
+}
+
+func (w *world) balsCoq(bs []*big.Int) string {
+	var out []string
+	for i, b := range bs {
+		out = append(out, fmt.Sprintf("(%d%%N,%s)", w.addrU[i], hx.CoqZ(b.String())))
 	}
+	return hx.CoqList(out)
+}
+
+func optIds(xs []int) string {
+	out := make([]string, len(xs))
+	for i, x := range xs {
+		if x == 0 {
+			out[i] = "None"
+		} else {
+			out[i] = fmt.Sprintf("Some %d%%N", x)
+		}
+	}
+	return hx.CoqList(out)
+}
+
+func (w *world) stateCoq(o ostate) string {
+	var es []string
 	for _, e := range o.esc {
 		es = append(es, fmt.Sprintf("(%d%%N,%d%%N,%s)", e.H, e.A, hx.CoqZ(e.V.String())))
 	}
-	return "(OS " + hx.CoqList(ms) + " " + hx.CoqList(bs) + " " + hx.CoqList(es) + ")"
+	return "(OS " + minersCoq(o.miners) + " " + w.balsCoq(o.bals) + " " + hx.CoqList(es) + ")"
 }
 
 func (o ostate) js() map[string]interface{} {
@@ -236,7 +343,7 @@ func (o ostate) js() map[string]interface{} {
 		bs = append(bs, b.String())
 	}
 	for _, e := range o.esc {
-		es = append(es, fmt.Sprintf("h%d/acct%d/%s", e.H, e.A, e.V.String()))
+		es = append(es, fmt.Sprintf("h%d/addr%d/%s", e.H, e.A, e.V.String()))
 	}
 	return map[string]interface{}{"miners": ms, "balances": bs, "escrow": es}
 }
@@ -281,13 +388,13 @@ type gtx struct {
 	acct  int    // apply / change account index as sent (0 = empty)
 }
 
-func (w *world) srcHex(s int) string { return w.accts[s-1].GetHexString() }
+func (w *world) srcHex(s int) string { return w.address(s).GetHexString() }
 
 func (w *world) acctBytes(a int) []byte {
 	if a == 0 {
 		return nil
 	}
-	return w.accts[a-1].Bytes()
+	return w.accts[a-1]
 }
 
 func (w *world) pickSender(r *hx.Rng) int {
@@ -564,7 +671,7 @@ func main() {
 	a := hx.ParseArgs()
 	rng := hx.NewRng(a.Seed)
 	res := hx.NewResult("a block is non-trivial when at least one of its transactions passed the fee step and reached the registry checks of its executor (result other than evict/json); distinct = distinct (transaction kinds, result classes, registry size before, escrow credited or not)")
-	cs := hx.NewCases(a.Out, "From V.C20 Require Import Model Harness.", "case", "check", 100)
+	cs := hx.NewCases(a.Out, "From V.C20 Require Import Model KeyModel Harness.", "case", "check", 60)
 	boot(20)
 
 	blocksPerWorld := 45
@@ -575,7 +682,7 @@ func main() {
 		}
 		w.step(rng, res, cs)
 	}
-	aliasSearch(rng, res)
+	aliasSearch(rng, res, cs)
 	cs.Close()
 	res.ModelCases = cs.Total()
 	res.Write(a.Out)
@@ -612,12 +719,331 @@ func (w *world) nextHeight(r *hx.Rng) uint64 {
 	return w.h + 1 + uint64(r.Intn(3))
 }
 
+// envCoq: the constant part of a case: ids, storage keys, SHA-256 table, account tables.
+// Keys are INTERNED: every distinct real key byte string (the id bytes and their SHA-256 chains, computed with the
+// node's common.Sha256) gets a small number; two model keys are equal iff the real key bytes are equal. The table
+// interned number -> real bytes travels with the case's JSON description (cases.jsonl).
+func (w *world) envCoq() string {
+	ids := make([]int, len(w.ids))
+	intern := map[string]int{}
+	var kb []string
+	in := func(b []byte) int {
+		if n, ok := intern[string(b)]; ok {
+			return n
+		}
+		n := len(intern) + 1
+		intern[string(b)] = n
+		kb = append(kb, fmt.Sprintf("%d=%s", n, common.ToHex(b)))
+		return n
+	}
+	var ik, ht []string
+	seen := map[int]bool{}
+	for i, id := range w.ids {
+		ids[i] = i + 1
+		ik = append(ik, fmt.Sprintf("(%d%%N,%d%%N)", i+1, in(id)))
+		x := id
+		for n := 0; n < 7; n++ {
+			y := common.Sha256(x)
+			if !seen[in(x)] {
+				seen[in(x)] = true
+				ht = append(ht, fmt.Sprintf("(%d%%N,%d%%N)", in(x), in(y)))
+			}
+			x = y
+		}
+	}
+	var au, ad []string
+	accts := make([]int, len(w.accts))
+	for i, a := range w.accts {
+		accts[i] = i + 1
+		var u uint64
+		if len(a) >= 8 {
+			u = binary.BigEndian.Uint64(a[:8])
+		}
+		au = append(au, fmt.Sprintf("(%d%%N,%d%%N)", i+1, u))
+		ad = append(ad, fmt.Sprintf("(%d%%N,%d%%N)", i+1, w.addrOf[i+1]))
+	}
+	w.keyBytes = kb
+	return fmt.Sprintf("%s %s %s %s %s %s %s %s", nlist(ids), hx.CoqList(ik), hx.CoqList(ht), hx.CoqList(au), hx.CoqList(ad),
+		nlist(w.contracts), nlist(accts), nlist(w.addrU))
+}
+
+type blockRun struct {
+	term    string
+	post    ostate
+	codes   []int
+	classes []string
+	mids    []midobs
+	panicked string
+	rewards []escEntry
+}
+
+// runCaseBlock executes one block (real loop, probes after every transaction, real after(), boundary), evaluates the
+// property on the implementation and returns the block's model term.
+func (w *world) runCaseBlock(r *hx.Rng, res *hx.Result, h uint64, g []gtx, castor int, members []int, pre ostate, input map[string]interface{}) blockRun {
+	var br blockRun
+	txs := make([]*types.Transaction, len(g))
+	for i := range g {
+		txs[i] = g[i].tx
+	}
+	// (the caller has put h+36000 and, with a group, the reward height into w.heights before observing pre)
+	rh := ((h + 35999) / 36000) * 36000
+	var groupId []byte
+	if members != nil {
+		groupId = []byte{0x67, byte(w.blocks), byte(h)}
+		var ms [][]byte
+		for _, m := range members {
+			ms = append(ms, w.ids[m-1])
+		}
+		groups[string(groupId)] = &types.Group{Id: groupId, Members: ms}
+	}
+	br.mids = make([]midobs, len(g))
+	var rcs []*types.Receipt
+	func() {
+		defer func() {
+			if x := recover(); x != nil {
+				br.panicked = fmt.Sprint(x)
+			}
+		}()
+		rcs = runBlock(w.nodeWorld, h, w.ids[castor-1], groupId, txs, func(i int, adb *account.AccountDB) { br.mids[i] = w.observeMid(adb) })
+		w.boundary()
+	}()
+	if br.panicked != "" {
+		return br
+	}
+	byHash := map[common.Hash]*types.Receipt{}
+	for _, rc := range rcs {
+		byHash[rc.TxHash] = rc
+	}
+	br.codes = make([]int, len(g))
+	var kinds []string
+	for i := range g {
+		br.codes[i] = classify(g[i].kind, byHash[g[i].tx.Hash])
+		name := "unclassified"
+		if br.codes[i] < len(resNames) {
+			name = resNames[br.codes[i]]
+		} else {
+			res.Violate("C20/harness:unclassified-message", "receipt message not classified: "+byHash[g[i].tx.Hash].Msg, input)
+		}
+		kinds = append(kinds, g[i].kind)
+		br.classes = append(br.classes, g[i].kind+":"+name)
+		res.Histogram["tx "+g[i].kind+":"+name]++
+	}
+	input["results"] = br.classes
+	post := w.observe()
+	br.post = post
+	input["after"] = post.js()
+	bad := pre.bad + post.bad
+	for _, m := range br.mids {
+		bad += m.bad
+	}
+	if bad != "" {
+		res.Violate("C20/universe:escaped", "state left the closed universe: "+bad, input)
+		br.panicked = "universe"
+		return br
+	}
+	codes := br.codes
+
+	// ---- (a) the property on the implementation, transaction by transaction ----
+	prev := midobs{ostate: pre}
+	havePrev := false // by-account / iterator views before the first transaction are those of the boundary
+	burnedNow := new(big.Int)
+	for i := range g {
+		cur := br.mids[i]
+		tag := fmt.Sprintf("tx %d (%s)", i, br.classes[i])
+		// a rejected transaction changes nothing but the fee
+		if codes[i] != 0 {
+			exp := cloneState(prev.ostate)
+			exp.esc = nil
+			if codes[i] != 1 {
+				si := indexOf(w.addrU, g[i].src)
+				exp.bals[si] = new(big.Int).Sub(exp.bals[si], feeWei)
+				fi := indexOf(w.addrU, 1)
+				exp.bals[fi] = new(big.Int).Add(exp.bals[fi], feeWei)
+			}
+			got := cloneState(cur.ostate)
+			got.esc = nil
+			if d := diffState(exp, got); d != "" {
+				res.Violate("C20/rejected-noop:"+br.classes[i], tag+" was rejected and changed more than the fee: "+d, input)
+			}
+			if havePrev && (fmt.Sprint(prev.byAcct) != fmt.Sprint(cur.byAcct) || fmt.Sprint(prev.iter) != fmt.Sprint(cur.iter)) {
+				res.Violate("C20/rejected-noop:"+br.classes[i], tag+" was rejected and changed what GetMinerIdByAccount / the iterator return", input)
+			}
+		}
+		// ghost ledger: stake = applied + added - refunded
+		if codes[i] == 0 {
+			key := ""
+			if g[i].id > 0 {
+				key = string(w.ids[g[i].id-1])
+			}
+			switch g[i].kind {
+			case "apply":
+				w.ghost[key] = int64(g[i].stake)
+			case "add":
+				w.ghost[key] += int64(g[i].stake)
+			case "refund":
+				v, _ := strconv.ParseUint(g[i].amt, 10, 64)
+				if v == ^uint64(0) {
+					w.ghost[key] = 0
+				} else {
+					w.ghost[key] -= int64(v)
+				}
+			case "opnode":
+				burnedNow.Add(burnedNow, tenTok)
+			}
+		}
+		for j, id := range w.ids {
+			m := cur.getMiner(j + 1)
+			var got int64
+			if m != nil {
+				got = int64(m.Stake)
+			}
+			if want := w.ghost[string(id)]; got != want {
+				res.Violate("C20/stake-accounting:"+g[i].kind, fmt.Sprintf("after %s id %d: registry stake %d, applied+added-refunded %d", tag, j+1, got, want), input)
+				w.ghost[string(id)] = got
+			}
+			if cur.find(0, j+1) != nil && cur.find(1, j+1) != nil {
+				res.Violate("C20/views-agree:id-in-both-registries", fmt.Sprintf("after %s id %d is registered as validator and as proposer", tag, j+1), input)
+			}
+		}
+		// the three lookup paths inside the block
+		for _, m := range cur.miners {
+			if indexOf(cur.iter[m.K], m.I) < 0 {
+				res.Violate("C20/views-agree:mid-block-iterator-misses-dirty", fmt.Sprintf("after %s GetMinerById finds id %d of kind %d, the iterator does not yield it", tag, m.I, m.K), input)
+			}
+			if m.Acct >= 0 && m.Acct <= len(w.accts) {
+				ok := false
+				if bi := cur.byAcct[m.Acct]; bi != 0 {
+					for _, hm := range cur.holders(m.Acct) {
+						if hm.I == bi {
+							ok = true
+						}
+					}
+				}
+				if !ok && len(cur.holders(m.Acct)) == 1 {
+					res.Violate("C20/views-agree:mid-block-iterator-misses-dirty", fmt.Sprintf("after %s id %d carries account %d but GetMinerIdByAccount(account %d) = id %d", tag, m.I, m.Acct, m.Acct, cur.byAcct[m.Acct]), input)
+				}
+			}
+		}
+		for k := 0; k <= 1; k++ {
+			for _, it := range cur.iter[k] {
+				if cur.find(k, it) == nil {
+					res.Violate("C20/views-agree:mid-block-iterator-yields-removed", fmt.Sprintf("after %s the kind-%d iterator yields id %d which GetMinerById no longer finds", tag, k, it), input)
+				}
+			}
+		}
+		// an account controls at most one miner
+		for ai := 0; ai <= len(w.accts); ai++ {
+			hp, hq := prev.holders(ai), cur.holders(ai)
+			if len(hq) > 1 && len(hq) > len(hp) {
+				key := "C20/account-unique:other"
+				eff := g[i].acct
+				if g[i].kind == "apply" && eff == 0 {
+					eff = g[i].src
+				}
+				switch {
+				case g[i].kind == "opnode":
+					key = "C20/account-unique:operator-node-no-target-check"
+				case (g[i].kind == "apply" || g[i].kind == "change") && eff == ai && indexOf(cur.iter[hp0(hp).K], hp0(hp).I) < 0:
+					key = "C20/account-unique:same-block-iterator-misses-dirty"
+				}
+				res.Violate(key, fmt.Sprintf("after %s account %d controls %d miners (%d before)", tag, ai, len(hq), len(hp)), input)
+			}
+		}
+		prev, havePrev = cur, true
+	}
+	// conservation over the block: liquid + locked + scheduled (+ operator-node charge) - rewards minted
+	minted := new(big.Int)
+	if members != nil {
+		for _, e := range post.esc {
+			if e.H != rh {
+				continue
+			}
+			d := new(big.Int).Set(e.V)
+			for _, p := range pre.esc {
+				if p.H == rh && p.A == e.A {
+					d.Sub(d, p.V)
+				}
+			}
+			if d.Sign() != 0 {
+				br.rewards = append(br.rewards, escEntry{rh, e.A, d})
+				minted.Add(minted, d)
+			}
+		}
+	}
+	d := new(big.Int).Sub(new(big.Int).Add(post.total(), burnedNow), pre.total())
+	d.Sub(d, minted)
+	if d.Sign() != 0 {
+		res.Violate("C20/conservation:"+strings.Join(uniq(br.classes), "+"), "liquid + locked + scheduled changed by "+d.String()+" wei beyond the scheduled rewards", input)
+	}
+	if minted.Sign() < 0 {
+		res.Violate("C20/conservation:reward-negative", "the escrow at the reward height shrank", input)
+	}
+	// the boundary: registry after the flush = registry the last probe saw
+	if len(g) > 0 {
+		last := cloneState(br.mids[len(g)-1].ostate)
+		pc := cloneState(post)
+		last.esc, pc.esc, last.bals, pc.bals = nil, nil, nil, nil
+		if dd := diffState(last, pc); dd != "" {
+			res.Violate("C20/views-agree:flush-changed-registry", "the registry read after the boundary differs from the registry after the last transaction: "+dd, input)
+		}
+	}
+	views, vdesc := w.viewsCheck(post, res, input, h, r)
+	input["views"] = vdesc
+
+	// ---- (b) the block's model term ----
+	var terms, obs, rws []string
+	for i := range g {
+		terms = append(terms, "("+g[i].term+")")
+		m := br.mids[i]
+		obs = append(obs, fmt.Sprintf("TO %d%%N %s %s %s %s %s", codes[i], minersCoq(m.miners), optIds(m.byAcct), nlist(m.iter[0]), nlist(m.iter[1]), w.balsCoq(m.bals)))
+	}
+	for _, e := range br.rewards {
+		rws = append(rws, fmt.Sprintf("(%d%%N,%d%%N,%s)", e.H, e.A, hx.CoqZ(e.V.String())))
+	}
+	rinfo := "None"
+	if members != nil {
+		rinfo = fmt.Sprintf("(Some (%d%%N, %s, %s))", castor, nlist(members), hx.CoqZ(strconv.FormatUint(common.GetBlocksPerEpoch(), 10)))
+		input["reward"] = map[string]interface{}{"castor": castor, "members": members, "height": rh, "minted": minted.String()}
+	}
+	br.term = fmt.Sprintf("BK %d%%N %s %s %s %s %s %s", h, hx.CoqList(terms), hx.CoqList(obs), hx.CoqList(rws), rinfo, w.stateCoq(post), views)
+	return br
+}
+
+func hp0(h []mrec) mrec {
+	if len(h) == 0 {
+		return mrec{K: 0, I: -1}
+	}
+	return h[0]
+}
+
+func indexOf(xs []int, x int) int {
+	for i, y := range xs {
+		if y == x {
+			return i
+		}
+	}
+	return -1
+}
+
+func (w *world) heightsCoq() string {
+	var hs []string
+	for _, x := range w.sortedHeights() {
+		hs = append(hs, fmt.Sprintf("%d%%N", x))
+	}
+	return hx.CoqList(hs)
+}
+
 func (w *world) step(r *hx.Rng, res *hx.Result, cs *hx.Cases) {
 	w.blocks++
-	pre := w.observe()
 	w.h = w.nextHeight(r)
 	h := w.h
+	rh := ((h + 35999) / 36000) * 36000
+	withGroup := r.Intn(4) == 0 && rh != h // a block with a verifying group: rewards are scheduled at rh
 	w.heights[h+refundDelay] = true
+	if withGroup {
+		w.heights[rh] = true
+	}
+	pre := w.observe()
 
 	// the block
 	n := []int{1, 1, 1, 2, 2, 2, 3, 3, 4, 5}[r.Intn(10)]
@@ -654,211 +1080,65 @@ func (w *world) step(r *hx.Rng, res *hx.Result, cs *hx.Cases) {
 	for i := 0; i < n; i++ {
 		g = append(g, w.generate(r, pre))
 	}
-	txs := make([]*types.Transaction, len(g))
-	for i := range g {
-		txs[i] = g[i].tx
-	}
 	blockDesc := make([]interface{}, len(g))
 	for i := range g {
 		blockDesc[i] = g[i].desc
 	}
 	input := map[string]interface{}{"height": h, "txs": blockDesc, "before": pre.js(), "ids": len(w.ids), "contracts": w.contracts}
-
-	var rcs []*types.Receipt
-	var refunds map[uint64]types.RefundInfoList
-	panicked := ""
-	func() {
-		defer func() {
-			if x := recover(); x != nil {
-				panicked = fmt.Sprint(x)
+	castor := 1 + r.Intn(len(w.ids))
+	var members []int
+	if withGroup {
+		for i := range w.ids {
+			if r.Intn(2) == 0 {
+				members = append(members, i+1)
 			}
-		}()
-		rcs, refunds = runBlock(w.nodeWorld, h, txs)
-		w.boundary()
-	}()
-	if panicked != "" {
-		res.Violate("C20/total:panic", "executing the block panicked: "+panicked, input)
-		res.Count("panic", "panic:"+panicked, true)
+		}
+		if members == nil {
+			members = []int{}
+		}
+		// prefer a registered proposer as castor
+		for _, m := range pre.miners {
+			if m.K == 1 && r.Intn(2) == 0 {
+				castor = m.I
+			}
+		}
+	}
+	br := w.runCaseBlock(r, res, h, g, castor, members, pre, input)
+	if br.panicked != "" {
+		if br.panicked != "universe" {
+			res.Violate("C20/total:panic", "executing the block panicked: "+br.panicked, input)
+			res.Count("panic", "panic:"+br.panicked, true)
+		}
 		w.blocks = 1 << 30 // abandon the world
 		return
 	}
-	byHash := map[common.Hash]*types.Receipt{}
-	for _, rc := range rcs {
-		byHash[rc.TxHash] = rc
-	}
-	codes := make([]int, len(g))
-	var kinds, classes []string
+	envTerm := w.envCoq()
+	input["keys"] = w.keyBytes
+	cs.Add(fmt.Sprintf("CS %s %s %s %s", envTerm, w.heightsCoq(), w.stateCoq(pre), hx.CoqList([]string{"(" + br.term + ")"})), input)
+
 	reached := false
+	var kinds []string
 	for i := range g {
-		codes[i] = classify(g[i].kind, byHash[g[i].tx.Hash])
-		name := "unclassified"
-		if codes[i] < len(resNames) {
-			name = resNames[codes[i]]
-		} else {
-			res.Violate("C20/harness:unclassified-message", "receipt message not classified: "+byHash[g[i].tx.Hash].Msg, input)
-		}
 		kinds = append(kinds, g[i].kind)
-		classes = append(classes, g[i].kind+":"+name)
-		if codes[i] != 1 && codes[i] != 2 {
+		if br.codes[i] != 1 && br.codes[i] != 2 {
 			reached = true
 		}
-		res.Histogram["tx "+g[i].kind+":"+name]++
 	}
-	input["results"] = classes
-
-	post := w.observe()
-	input["after"] = post.js()
-	if pre.bad != "" || post.bad != "" {
-		res.Violate("C20/universe:escaped", "state left the closed universe: "+pre.bad+post.bad, input)
-		w.blocks = 1 << 30
-		return
-	}
-
-	// ---- (a) the property on the implementation ----
-	// ghost ledger from the receipts: stake = applied + added - refunded
-	for i := range g {
-		if codes[i] != 0 {
-			continue
-		}
-		key := ""
-		if g[i].id > 0 {
-			key = string(w.ids[g[i].id-1])
-		}
-		switch g[i].kind {
-		case "apply":
-			w.ghost[key] = int64(g[i].stake)
-		case "add":
-			if g[i].stake != 0 {
-				w.ghost[key] += int64(g[i].stake)
-			}
-		case "refund":
-			v, _ := strconv.ParseUint(g[i].amt, 10, 64)
-			if v == ^uint64(0) {
-				w.ghost[key] = 0
-			} else {
-				w.ghost[key] -= int64(v)
-			}
-		case "opnode":
-			w.burned.Add(w.burned, tenTok)
-		}
-	}
-	for i, id := range w.ids {
-		m := post.getMiner(i + 1)
-		want := w.ghost[string(id)]
-		var got int64
-		if m != nil {
-			got = int64(m.Stake)
-		}
-		if got != want {
-			res.Violate("C20/stake-accounting:"+strings.Join(uniq(kinds), "+"), fmt.Sprintf("id %d: registry stake %d, applied+added-refunded %d", i+1, got, want), input)
-			w.ghost[string(id)] = got
-		}
-		if post.find(0, i+1) != nil && post.find(1, i+1) != nil {
-			res.Violate("C20/views-agree:id-in-both-registries", fmt.Sprintf("id %d is registered as validator and as proposer", i+1), input)
-		}
-	}
-	// conservation: liquid + locked + scheduled (+ what the operator-node charge destroyed in this block)
-	burnedNow := new(big.Int)
-	for i := range g {
-		if g[i].kind == "opnode" && codes[i] == 0 {
-			burnedNow.Add(burnedNow, tenTok)
-		}
-	}
-	if d := new(big.Int).Sub(new(big.Int).Add(post.total(), burnedNow), pre.total()); d.Sign() != 0 {
-		res.Violate("C20/conservation:"+strings.Join(uniq(classes), "+"), "liquid + locked + scheduled changed by "+d.String()+" wei", input)
-	}
-	// the three lookup paths
-	views, vdesc := w.viewsCheck(post, res, input, h, r)
-	// an account controls at most one miner
-	for ai := 0; ai <= len(w.accts); ai++ {
-		hp, hq := pre.holders(ai), post.holders(ai)
-		if len(hq) > 1 && len(hq) > len(hp) {
-			key := "C20/account-unique:other"
-			viaOp, regs := false, 0
-			for i := range g {
-				if codes[i] != 0 {
-					continue
-				}
-				if g[i].kind == "opnode" && w.ncOf[g[i].src] == ai {
-					viaOp = true
-				}
-				eff := g[i].acct
-				if g[i].kind == "apply" && eff == 0 {
-					eff = g[i].src
-				}
-				if (g[i].kind == "apply" || g[i].kind == "change") && eff == ai {
-					regs++
-				}
-			}
-			if viaOp {
-				key = "C20/account-unique:operator-node-no-target-check"
-			} else if regs >= 2 {
-				key = "C20/account-unique:same-block-iterator-misses-dirty"
-			}
-			res.Violate(key, fmt.Sprintf("account %d controls %d miners after the block (%d before)", ai, len(hq), len(hp)), input)
-		}
-	}
-	// a rejected transaction changes nothing but the fee (single-transaction blocks isolate it)
-	if len(g) == 1 && codes[0] != 0 {
-		exp := cloneState(pre)
-		if codes[0] != 1 {
-			exp.bals[g[0].src-1] = new(big.Int).Sub(exp.bals[g[0].src-1], feeWei)
-			exp.bals[0] = new(big.Int).Add(exp.bals[0], feeWei)
-		}
-		// escrow due at this height is credited by the block itself
-		for _, e := range pre.esc {
-			if e.H == h {
-				exp.bals[e.A-1] = new(big.Int).Add(exp.bals[e.A-1], e.V)
-			}
-		}
-		exp.esc = nil
-		for _, e := range pre.esc {
-			if e.H != h {
-				exp.esc = append(exp.esc, e)
-			}
-		}
-		if d := diffState(exp, post); d != "" {
-			res.Violate("C20/rejected-noop:"+classes[0], "a rejected transaction changed more than the fee: "+d, input)
-		}
-	}
-
-	// ---- (b) the model case ----
 	credited := false
 	for _, e := range pre.esc {
 		if e.H == h {
 			credited = true
 		}
 	}
-	_ = refunds
-	ids := make([]int, len(w.ids))
-	for i := range ids {
-		ids[i] = i + 1
-	}
-	accts := make([]int, len(w.accts))
-	for i := range accts {
-		accts[i] = i + 1
-	}
-	var hs []string
-	for _, x := range w.sortedHeights() {
-		hs = append(hs, fmt.Sprintf("%d%%N", x))
-	}
-	var terms []string
-	for i := range g {
-		terms = append(terms, "("+g[i].term+")")
-	}
-	term := fmt.Sprintf("CS %s %s %s %s %s %d%%N %s %s %s %s", nlist(ids), nlist(w.contracts), nlist(accts), hx.CoqList(hs),
-		pre.coq(), h, hx.CoqList(terms), nlist(codes), post.coq(), views)
-	input["views"] = vdesc
-	cs.Add(term, input)
-
-	class := strings.Join(uniq(classes), " ")
-	ident := fmt.Sprintf("%s|%v|n%d|c%v", strings.Join(classes, ","), kinds, len(pre.miners), credited)
+	ident := fmt.Sprintf("%s|%v|n%d|c%v|r%d", strings.Join(br.classes, ","), kinds, len(pre.miners), credited, len(br.rewards))
 	nb := len(g)
 	if nb > 6 {
 		nb = 6
 	}
 	res.Count("block["+strconv.Itoa(nb)+"]", ident, reached)
-	_ = class
+	if len(br.rewards) > 0 {
+		res.Histogram["block with rewards"]++
+	}
 	if reached && len(pre.miners) > 0 {
 		res.Sample(input)
 	}
@@ -963,7 +1243,7 @@ func (w *world) viewsCheck(post ostate, res *hx.Result, input map[string]interfa
 				res.Violate("C20/views-agree:iterator-extra", fmt.Sprintf("the kind-%d iterator yields id %d which GetMinerById does not find", k, i), input)
 				continue
 			}
-			if rec.Stake != m.Stake || rec.Acct != w.acctIdx(m.Account) || rec.Stat != int(m.Status) || rec.Apply != m.ApplyHeight || int(m.Type) != k {
+			if rec.Stake != m.Stake || rec.Acct != w.acctIdxJunk(m.Account, w.ADB) || rec.Stat != int(m.Status) || rec.Apply != m.ApplyHeight || int(m.Type) != k {
 				res.Violate("C20/views-agree:iterator-record", fmt.Sprintf("the kind-%d iterator record of id %d differs from GetMinerById", k, i), input)
 			}
 		}
@@ -997,9 +1277,13 @@ func (w *world) viewsCheck(post ostate, res *hx.Result, input map[string]interfa
 		for i, id := range w.ids {
 			if a, ok := mp[common.ToHex(id)]; ok {
 				n++
-				all[k] = append(all[k], fmt.Sprintf("(%d%%N,%d%%N)", i+1, w.addrIdx(a)))
 				rec := post.find(k, i+1)
-				if rec == nil || rec.Stat != 0 || rec.Apply > qh || rec.Acct != w.addrIdx(a) {
+				ax := w.addrIdx(a)
+				if ax < 0 && rec != nil && rec.Acct >= 1000000 {
+					ax = rec.Acct // a junk account value (storage-key aliasing): the model keeps its tag
+				}
+				all[k] = append(all[k], fmt.Sprintf("(%d%%N,%d%%N)", i+1, ax))
+				if rec == nil || rec.Stat != 0 || rec.Apply > qh || rec.Acct < 0 || (rec.Acct < len(w.addrOf) && w.addrOf[rec.Acct] != w.addrIdx(a)) {
 					res.Violate("C20/totals:all-id-account", fmt.Sprintf("GetAllMinerIdAndAccount lists id %d of kind %d with account %d against its record", i+1, k, w.addrIdx(a)), input)
 				}
 			}
@@ -1023,50 +1307,71 @@ func (w *world) viewsCheck(post ostate, res *hx.Result, input map[string]interfa
 
 // aliasSearch: the four storage keys of a miner are id, H(id), H(H(id)), H(H(H(id))) in ONE key space, and the id
 // of a MinerApply is taken from the transaction data as it is. A second miner registered under the id
-// H^n(victim id) writes its own slots over the victim's stake / account / status slot. Outside the model
-// (its ids are unrelated by SHA-256, see props/C20.json); searched here on the implementation only.
-func aliasSearch(r *hx.Rng, res *hx.Result) {
+// H^n(victim id) writes its own slots over the victim's stake / account / status slot. The scenarios run through the
+// same block runner as the generated blocks and are written as model cases: coq/C20/KeyModel.v derives the storage
+// keys from the real id bytes and the SHA-256 table, so the model must reproduce the corrupted record.
+func aliasSearch(r *hx.Rng, res *hx.Result, cs *hx.Cases) {
 	for n := 1; n <= 3; n++ {
 		w := newWorld(r)
-		victim := w.ids[0]
-		s1, s2 := w.senders[0], w.senders[1]
-		apply := func(src int, id []byte, stake uint64) *types.Transaction {
-			md, _ := json.Marshal(types.Miner{Id: id, PublicKey: []byte{1, 2}, VrfPublicKey: []byte{3}, Type: 0, Stake: stake})
-			return newTx(types.TransactionTypeMinerApply, w.srcHex(src), string(md))
-		}
-		status := func(rs []*types.Receipt) string {
-			var out []string
-			for _, rc := range rs {
-				out = append(out, fmt.Sprintf("status=%d %s", rc.Status, rc.Msg))
-			}
-			return strings.Join(out, " | ")
-		}
-		w.h++
-		rs, _ := runBlock(w.nodeWorld, w.h, []*types.Transaction{apply(s1, victim, 800)})
-		w.boundary()
-		steps := []string{"S1 MinerApply id=X stake=800: " + status(rs)}
-		if n == 3 { // an aborted victim: refund below the minimum
-			data, _ := json.Marshal(map[string]string{"Amount": "401", "MinerId": common.ToHex(victim)})
-			w.h++
-			rs, _ = runBlock(w.nodeWorld, w.h, []*types.Transaction{newTx(types.TransactionTypeMinerRefund, w.srcHex(s1), string(data))})
-			w.boundary()
-			steps = append(steps, "S1 MinerRefund 401 of X (left 399 < 400: abort): "+status(rs))
-		}
-		before := service.MinerManagerImpl.GetMinerById(victim, 0, w.ADB)
-		if before == nil {
-			res.Violate("C20/harness:alias-setup", "victim registration failed", steps)
-			continue
-		}
+		victim := r.Bytes(32)
+		victim[0] = 0x33
 		alias := victim
 		for i := 0; i < n; i++ {
 			alias = common.Sha256(alias)
 		}
-		w.h++
-		rs, _ = runBlock(w.nodeWorld, w.h, []*types.Transaction{apply(s2, alias, 400)})
-		w.boundary()
-		steps = append(steps, fmt.Sprintf("S2 MinerApply id=SHA256^%d(X) stake=400: %s", n, status(rs)))
+		w.ids = [][]byte{victim, alias, {0x70, 0x01}, {0x70, 0x02}}
+		sort.Slice(w.ids, func(i, j int) bool { return bytes.Compare(w.ids[i], w.ids[j]) < 0 })
+		vi, ai := w.idIdx(victim), w.idIdx(alias)
+		s1, s2 := w.senders[0], w.senders[1]
+		apply := func(src int, id int, stake uint64) gtx {
+			md, _ := json.Marshal(types.Miner{Id: w.ids[id-1], PublicKey: []byte{1, 2}, VrfPublicKey: []byte{3}, Type: 0, Stake: stake})
+			return gtx{kind: "apply", src: src, id: id, stake: stake, tx: newTx(types.TransactionTypeMinerApply, w.srcHex(src), string(md)),
+				term: fmt.Sprintf("TApply %d%%N true 0%%N %d%%N %d%%N 0%%N true", src, id, stake),
+				desc: map[string]interface{}{"tx": "apply", "src": src, "id": id, "stake": stake}}
+		}
+		blocks := [][]gtx{{apply(s1, vi, 800)}}
+		steps := []string{"S1 MinerApply validator id=X stake=800"}
+		if n == 3 { // an aborted victim: refund below the minimum
+			data, _ := json.Marshal(map[string]string{"Amount": "401", "MinerId": common.ToHex(victim)})
+			blocks = append(blocks, []gtx{{kind: "refund", src: s1, id: vi, amt: "401", tx: newTx(types.TransactionTypeMinerRefund, w.srcHex(s1), string(data)),
+				term: fmt.Sprintf("TRefund %d%%N true (Some 401%%N) %d%%N", s1, vi), desc: map[string]interface{}{"tx": "refund", "src": s1, "id": vi, "amount": "401"}}})
+			steps = append(steps, "S1 MinerRefund 401 of X (left 399 < 400: aborted)")
+		}
+		blocks = append(blocks, []gtx{apply(s2, ai, 400)})
+		steps = append(steps, fmt.Sprintf("S2 MinerApply validator id=SHA256^%d(X) stake=400", n))
+		for range blocks {
+			w.h++
+			w.heights[w.h+refundDelay] = true
+		}
+		w.h -= uint64(len(blocks))
+		pre0 := w.observe()
+		scratch := hx.NewResult("")
+		var terms []string
+		var before *types.Miner
+		ok := true
+		for bi, g := range blocks {
+			w.h++
+			w.blocks++
+			if bi == len(blocks)-1 {
+				before = service.MinerManagerImpl.GetMinerById(victim, 0, w.ADB)
+			}
+			br := w.runCaseBlock(r, scratch, w.h, g, 1, nil, w.observe(), map[string]interface{}{})
+			if br.panicked != "" {
+				res.Violate("C20/harness:alias-setup", "alias scenario could not be observed: "+br.panicked, steps)
+				ok = false
+				break
+			}
+			steps[bi] += " -> " + strings.Join(br.classes, ",")
+			terms = append(terms, "("+br.term+")")
+		}
+		if !ok || before == nil {
+			continue
+		}
 		after := service.MinerManagerImpl.GetMinerById(victim, 0, w.ADB)
 		input := map[string]interface{}{"X": common.ToHex(victim), "n": n, "steps": steps}
+		envTerm := w.envCoq()
+		input["keys"] = w.keyBytes
+		cs.Add(fmt.Sprintf("CS %s %s %s %s", envTerm, w.heightsCoq(), w.stateCoq(pre0), hx.CoqList(terms)), input)
 		class := "alias-refused"
 		switch {
 		case after == nil:
@@ -1078,7 +1383,7 @@ func aliasSearch(r *hx.Rng, res *hx.Result) {
 			res.Violate("C20/stake-accounting:id-key-aliasing", fmt.Sprintf("a MinerApply with id SHA256(X) overwrote the stake slot of miner X: stake %d -> %d without any add/refund naming X", before.Stake, after.Stake), input)
 		case !bytes.Equal(after.Account, before.Account):
 			class = "alias-account-overwritten"
-			input["victim"] = fmt.Sprintf("account %s -> %s", common.ToHex(before.Account), common.ToHex(after.Account))
+			input["victim"] = fmt.Sprintf("account %s -> %d bytes of json", common.ToHex(before.Account), len(after.Account))
 			res.Violate("C20/views-agree:id-key-aliasing", fmt.Sprintf("a MinerApply with id SHA256^2(X) overwrote the account slot of miner X (%d bytes now): GetMinerIdByAccount(owner) no longer finds X and the owner cannot refund", len(after.Account)), input)
 		case after.Status != before.Status:
 			class = "alias-status-overwritten"
@@ -1088,6 +1393,7 @@ func aliasSearch(r *hx.Rng, res *hx.Result) {
 		res.Count(class, fmt.Sprintf("alias%d:%s", n, class), true)
 	}
 	phantomSearch(r, res)
+	oddSourceSearch(r, res)
 }
 
 // phantomSearch: the iterator parses EVERY value of the registry account as a miner json, and the account of a
@@ -1102,11 +1408,11 @@ func phantomSearch(r *hx.Rng, res *hx.Result) {
 		return newTx(types.TransactionTypeMinerApply, w.srcHex(s1), string(md))
 	}
 	w.h++
-	rs1, _ := runBlock(w.nodeWorld, w.h, []*types.Transaction{mk(victim, addr(0x11).Bytes())})
+	rs1 := runBlock(w.nodeWorld, w.h, []byte{0xca}, nil, []*types.Transaction{mk(victim, addr(0x11).Bytes())}, nil)
 	w.boundary()
 	phantom := []byte(fmt.Sprintf("{\"id\":\"%s\",\"type\":1}", common.ToHex(victim)))
 	w.h++
-	rs2, _ := runBlock(w.nodeWorld, w.h, []*types.Transaction{mk(other, phantom)})
+	rs2 := runBlock(w.nodeWorld, w.h, []byte{0xca}, nil, []*types.Transaction{mk(other, phantom)}, nil)
 	w.boundary()
 	if len(rs1) != 1 || rs1[0].Status != 1 || len(rs2) != 1 || rs2[0].Status != 1 {
 		res.Count("phantom-refused", "phantom-refused", true)
@@ -1131,4 +1437,52 @@ func phantomSearch(r *hx.Rng, res *hx.Result) {
 		return
 	}
 	res.Count("phantom-ignored", "phantom-ignored", true)
+}
+
+// oddSourceSearch: escrow keys are the miner's account bytes and RefundManager.getAllRefund / CheckAndMove map them
+// through BytesToAddress, which is not injective on byte strings of other lengths. The account of a refund equals
+// FromHex(tx.Source), and transaction admission (verifyTransactionSign) only lets the canonical 20-byte hex of the
+// signer through, so the collision needs a non-canonical Source that the executors alone would accept. Executed here
+// WITHOUT admission to record what the executors do with it (class in the histogram; not a violation of C20).
+func oddSourceSearch(r *hx.Rng, res *hx.Result) {
+	w := newWorld(r)
+	a1 := addr(1)
+	odd := "0x00" + a1.GetHexString()[2:] // 21 bytes, same address
+	mk := func(id []byte, src string, acct []byte) *types.Transaction {
+		md, _ := json.Marshal(types.Miner{Id: id, PublicKey: []byte{1, 2}, VrfPublicKey: []byte{3}, Type: 0, Stake: 800, Account: acct})
+		return newTx(types.TransactionTypeMinerApply, src, string(md))
+	}
+	rf := func(id []byte, src string) *types.Transaction {
+		data, _ := json.Marshal(map[string]string{"Amount": "100", "MinerId": common.ToHex(id)})
+		return newTx(types.TransactionTypeMinerRefund, src, string(data))
+	}
+	w.ADB.SetBalance(common.HexStringToAddress(odd), tokens(5)) // ProcessFee charges HexStringToAddress(Source), another address for 21 bytes
+	w.boundary()
+	w.h++
+	r1 := runBlock(w.nodeWorld, w.h, []byte{0xca}, nil, []*types.Transaction{mk(w.ids[0], a1.GetHexString(), nil), mk(w.ids[1], a1.GetHexString(), common.FromHex(odd))}, nil)
+	w.boundary()
+	w.h++
+	due := w.h + refundDelay
+	r2 := runBlock(w.nodeWorld, w.h, []byte{0xca}, nil, []*types.Transaction{rf(w.ids[0], a1.GetHexString()), rf(w.ids[1], odd)}, nil)
+	w.boundary()
+	okAll := len(r1) == 2 && r1[0].Status == 1 && r1[1].Status == 1 && len(r2) == 2 && r2[0].Status == 1 && r2[1].Status == 1
+	class := "odd-source:refused"
+	if !okAll {
+		var ms []string
+		for _, rc := range append(append([]*types.Receipt{}, r1...), r2...) {
+			ms = append(ms, fmt.Sprintf("%d:%s", rc.Status, rc.Msg))
+		}
+		res.Note("non-canonical Source executed without admission was refused by the executors: " + strings.Join(ms, " | "))
+	}
+	if okAll {
+		before := w.ADB.GetBalance(a1)
+		w.h = due
+		runBlock(w.nodeWorld, w.h, []byte{0xca}, nil, nil, nil)
+		w.boundary()
+		got := new(big.Int).Sub(w.ADB.GetBalance(a1), before)
+		left := w.ADB.GetData(refundAddress(due), common.FromHex(odd))
+		class = fmt.Sprintf("odd-source:two-escrow-keys-one-address credited=%s of %s, 21-byte key left behind=%v", got.String(), tokens(200).String(), len(left) > 0)
+		res.Note("non-canonical Source executed without admission: one address held miners under a 20-byte and a 21-byte account string; both refunds of 100 were scheduled under distinct escrow keys that BytesToAddress maps to one address; at the due height the address was credited " + got.String() + " wei and the 21-byte entry stayed in the refund account: " + fmt.Sprint(len(left) > 0) + " (unreachable through verifyTransactionSign, which only admits the canonical hex of the signer)")
+	}
+	res.Count(strings.SplitN(class, " ", 2)[0], class, true)
 }
